@@ -175,6 +175,75 @@ pub fn run(ctx: &mut Ctx) {
     });
 }
 
+/// engine level: set_beta(b) must make synthesis use exactly the postfilter with b (and only the
+/// spectrum rendering changes: trajectories stay bit-equal)
+pub fn end_to_end(ctx: &mut Ctx) {
+    use crate::env::{Cond, Env};
+    use crate::mon::c01::load_synthetic;
+    use crate::synth::{bits_equal, params_from_getters, rerender, run_with_hooks};
+    use crate::voicegen::VoiceOpts;
+    let env = Env::new(ctx);
+    let bundled = env.load_bundled();
+    let n = ctx.n(24, 800);
+    ctx.run_cases("engine-beta", n, false, |ctx, rng, idx| {
+        let (base, descr) = if idx % 3 == 0 {
+            (bundled.clone(), "bundled".to_string())
+        } else {
+            let mut o = VoiceOpts::random(rng);
+            o.stage = 0;
+            match load_synthetic(&env, &o, rng) {
+                Ok((e, _)) => (e, format!("synthetic[{}]", o.describe())),
+                Err(e) => {
+                    ctx.inconclusive(&e);
+                    return;
+                }
+            }
+        };
+        let mut e0 = base.clone();
+        let mut cond = Cond::random(rng, e0.voices.global_metadata().num_streams, false);
+        cond.volume_db = None;
+        cond.beta = None;
+        cond.apply(&mut e0);
+        let beta = if idx % 4 == 0 { 0.5 } else { rng.uniform(0.05, 0.5) };
+        let mut eb = e0.clone();
+        eb.condition.set_beta(beta);
+        let labels = env.corpus.random_utterance(rng, 1, if ctx.quick() { 4 } else { 12 });
+        let (Ok(r0), Ok(rb)) = (run_with_hooks(&e0, labels.clone()), run_with_hooks(&eb, labels.clone())) else {
+            ctx.violation("synthesize-err", J::from(descr.clone()));
+            return;
+        };
+        let d = |extra: J| J::obj().set("voice", descr.clone()).set("beta", beta).set("cond", cond.to_json()).set("observed", extra);
+        let same_traj = r0.durations == rb.durations
+            && r0.spectrum.iter().flatten().map(|x| x.to_bits()).eq(rb.spectrum.iter().flatten().map(|x| x.to_bits()))
+            && r0.lf0.iter().flatten().map(|x| x.to_bits()).eq(rb.lf0.iter().flatten().map(|x| x.to_bits()));
+        if !same_traj {
+            ctx.violation("beta-changed-the-generated-parameters", d(J::Null));
+            return;
+        }
+        let Some(mut p) = params_from_getters(&eb) else {
+            ctx.inconclusive("Condition's Debug output no longer exposes stage / use_log_gain");
+            return;
+        };
+        if !(p.beta == beta) {
+            ctx.violation("beta-getter", d(J::obj().set("got", p.beta)));
+            return;
+        }
+        let want = rerender(&p, &rb);
+        let finite = want.iter().all(|x| x.is_finite()) && rb.wave.iter().all(|x| x.is_finite());
+        if finite && !bits_equal(&want, &rb.wave) {
+            ctx.violation("engine-does-not-render-with-the-postfilter-coefficient-that-was-set", d(J::obj().set("len", rb.wave.len())));
+            return;
+        }
+        p.beta = 0.0;
+        let plain = rerender(&p, &rb);
+        let changed = !bits_equal(&plain, &rb.wave);
+        ctx.count("engine_beta_waveforms_compared", 1.0);
+        if finite && changed && p.nmcp > 2 {
+            ctx.nontrivial(mix(&[41, crate::rng::hash_str(&descr), (beta * 1000.0) as u64, rb.wave.len() as u64]));
+        }
+    });
+}
+
 /// (c) energy preservation within 1 %, when the response fits the implementation's 576-tap horizon
 #[allow(clippy::too_many_arguments)]
 fn energy_clause(ctx: &mut Ctx, s0: &crate::pulse::Steady, sb: &crate::pulse::Steady, descr: &J, order: usize, alpha: f64, beta: f64, rate: usize, beyond_pade: bool) {
